@@ -21,7 +21,7 @@ func init() {
 			"(4) operator table: And=&, Or=|, Reverse=^x, Full= ==^0, Len=OnesCount64 (64 when full), NLen=64-Len / 1024-Len, Equal compares all 16 words, the 1024-bit operators apply the same-named 64-bit one at every index below 16, the bit table is 1<<i. " +
 			"NOT decided: the emitted values for each of the 2^1024 bitmaps beyond these invariants (follow by induction from 2 and 3, informally); that the dense and sparse branches are extensionally equal (only that both satisfy the same obligations); GetN* with negative n (make panics: outside the iterator clause).",
 		Assumptions: []string{"math/bits contracts", "len(Bit1024) == 16 (all constructors make L16 words; checked)"},
-		Floors:      map[string]int{"C08.index-safety": 14, "C08.write-guard": 10, "C08.iteration-step": 10, "C08.direction": 18, "C08.block-iteration": 8, "C08.operators": 12, "C08.dispatch": 7},
+		Floors:      map[string]int{"C08.index-safety": 14, "C08.write-guard": 10, "C08.iteration-step": 10, "C08.direction": 18, "C08.block-iteration": 8, "C08.operators": 12, "C08.dispatch": 7, "C08.dense-coverage": 10},
 		Run:         runC08,
 	})
 }
@@ -43,7 +43,7 @@ func runC08(c *Ctx) {
 		c.undecided("anchor", relI+".u64Tab", 0, "bit table not found")
 		return
 	}
-	x := &bitCtx{c: c, tab: tab}
+	x := &bitCtx{c: c, tab: tab, pfx: "C08"}
 	for i := 0; i < b64.NumMethods(); i++ {
 		m := b64.Method(i)
 		if mm := iterNameRe.FindStringSubmatch(m.Name()); mm != nil {
@@ -67,6 +67,7 @@ func runC08(c *Ctx) {
 type bitCtx struct {
 	c   *Ctx
 	tab *ssa.Global
+	pfx string // rule prefix of the block-iteration rule (C08; C09 re-runs it for the block bitmaps)
 }
 
 func (x *bitCtx) isTabCell(a *Sym) (*Sym, bool) {
@@ -88,6 +89,7 @@ func (x *bitCtx) checkLeafIter(fn *ssa.Function, reverse bool) {
 	s, add, n := fn.Params[1], fn.Params[3], fn.Params[4]
 	sK, addK, nK := "$"+s.Name(), "$"+add.Name(), "$"+n.Name()
 	okIdx, okGuard, okStep, okDir, okRet := true, true, true, true, true
+	okCover, sawCover := true, false
 	nIdx, nStores, nCuts := 0, 0, 0
 	// the loop-carried count variable(s): phis compared with n
 	cPhis := map[interface{}]bool{}
@@ -217,6 +219,68 @@ func (x *bitCtx) checkLeafIter(fn *ssa.Function, reverse bool) {
 					if !good && okDir {
 						okDir = false
 						c.violated("C08.direction", name+" dense", e.Pos, fmt.Sprintf("the dense loop of %s iterator runs from %d with step %+d (ascending: 0,+1; descending: 63,-1)", map[bool]string{true: "a descending", false: "an ascending"}[reverse], init, st), "")
+					}
+				}
+			}
+		}
+		// dense loop coverage: the loop's own continue-condition on the bit variable admits exactly 0..63
+		{
+			var denseVar *Sym
+			for _, e := range t.Events {
+				if e.Kind == EvLoad {
+					if idx, ok := x.isTabCell(e.Addr); ok {
+						v := idx
+						for v.Kind == KConv {
+							v = v.Args[0]
+						}
+						if v.Kind == KFresh && v.Name == "loop" && len(v.Args) == 2 {
+							denseVar = v
+						}
+					}
+				}
+			}
+			if denseVar != nil {
+				init, isC := denseVar.Args[0].intConst()
+				for _, e := range t.Events {
+					if e.Kind != EvBranch || e.Cond.Kind != KBin || !isC {
+						continue
+					}
+					v := e.Cond.Args[0]
+					for v.Kind == KConv {
+						v = v.Args[0]
+					}
+					k, isK := e.Cond.Args[1].intConst()
+					if v.Key() != denseVar.Key() || !isK {
+						continue
+					}
+					// continue-condition as written: the start value satisfies it
+					lo, hi := int64(-1<<62), int64(1<<62)
+					switch e.Cond.Op {
+					case token.LSS:
+						hi = k - 1
+					case token.LEQ:
+						hi = k
+					case token.GTR:
+						lo = k + 1
+					case token.GEQ:
+						lo = k
+					case token.NEQ:
+						if init < k {
+							hi = k - 1
+						} else {
+							lo = k + 1
+						}
+					default:
+						continue
+					}
+					if init < lo || init > hi {
+						continue
+					}
+					sawCover = true
+					good := (!reverse && hi == 63) || (reverse && lo == 0)
+					if !good && okCover {
+						okCover = false
+						c.violated("C08.dense-coverage", name, e.Pos, fmt.Sprintf("the dense loop continues while `%s`: it does not visit every bit position 0..63 (a member at the excluded position is never reported and the count is short)", c.short(e.Cond.Key())), c.witness(t, len(t.Events)-1)...)
 					}
 				}
 			}
@@ -356,6 +420,9 @@ func (x *bitCtx) checkLeafIter(fn *ssa.Function, reverse bool) {
 	if okStep && okRet {
 		c.holds("C08.iteration-step", name, fn.Pos(), fmt.Sprintf("%d loop summaries", nCuts))
 	}
+	if okCover && sawCover {
+		c.holds("C08.dense-coverage", name, fn.Pos(), "dense loop visits 0..63")
+	}
 	if okDir {
 		if sawDenseDir {
 			c.holds("C08.direction", name+" dense", fn.Pos(), "")
@@ -377,7 +444,7 @@ func (x *bitCtx) checkBlockIter(fn *ssa.Function, reverse bool) {
 	noInl := func(callee *ssa.Function, depth int) bool { return false }
 	traces, complete := c.Trace(fn, TraceConfig{Inline: noInl})
 	if !complete {
-		c.undecided("C08.block-iteration", name, fn.Pos(), "path budget exceeded")
+		c.undecided(x.pfx+".block-iteration", name, fn.Pos(), "path budget exceeded")
 		return
 	}
 	b, s, pos, add, n := "$"+fn.Params[0].Name(), "$"+fn.Params[1].Name(), "$"+fn.Params[2].Name(), fn.Params[3], "$"+fn.Params[4].Name()
@@ -400,7 +467,7 @@ func (x *bitCtx) checkBlockIter(fn *ssa.Function, reverse bool) {
 			if i < 0 {
 				i = len(t.Events) - 1
 			}
-			c.violated("C08.block-iteration", name, t.Events[i].Pos, msg, c.witness(t, i)...)
+			c.violated(x.pfx+".block-iteration", name, t.Events[i].Pos, msg, c.witness(t, i)...)
 		}
 	}
 	addSym := &Sym{Kind: KParam, Ref: add, Typ: add.Type()}
@@ -541,9 +608,9 @@ func (x *bitCtx) checkBlockIter(fn *ssa.Function, reverse bool) {
 		}
 	}
 	if calls == 0 || cuts == 0 {
-		c.undecided("C08.block-iteration", name, fn.Pos(), "the block iterator's shape was not recognised")
+		c.undecided(x.pfx+".block-iteration", name, fn.Pos(), "the block iterator's shape was not recognised")
 	} else if ok {
-		c.holds("C08.block-iteration", name, fn.Pos(), fmt.Sprintf("%d leaf calls, %d loop summaries", calls, cuts))
+		c.holds(x.pfx+".block-iteration", name, fn.Pos(), fmt.Sprintf("%d leaf calls, %d loop summaries", calls, cuts))
 	}
 }
 
